@@ -86,6 +86,9 @@ def classes():
         dc: FloatArray = FloatArray(Double, 4)
         sc: StructArray = StructArray(VT_INNER, 3)
         bc: ByteArray = ByteArray(6)
+        # a byte array as long as MDF_VT.ua and an unsigned 8-bit array as long as MDF_VT.ba (same element C type)
+        b4: ByteArray = ByteArray(4)
+        u6: IntArray = IntArray(Uint8, 6)
 
     _CLS.update(INNER=VT_INNER, OTHER=VT_OTHER, VT=MDF_VT, VT2=MDF_VT2)
     return _CLS
@@ -385,6 +388,10 @@ def build_table():
     add("sa", "from", None, ("VT2", "sc"), ACCEPT, None, "sa = other.sc")
     add("ba", "from", None, ("VT2", "bc"), ACCEPT, None, "ba = other.bc")
     add("ia", "from", None, ("VT", "ia"), ACCEPT, None, "ia = another message's ia")
+    # another validator kind with the same element C type and length
+    add("ua", "from", None, ("VT2", "b4"), REFUSE, None, "ua = other.b4 (byte array)")
+    add("ba", "from", None, ("VT2", "u6"), REFUSE, None, "ba = other.u6 (uint8 array)")
+    add("ia", "from", None, ("VT2", "uc"), REFUSE, None, "ia = other.uc (uint8, shorter)")
     return T
 
 
